@@ -326,6 +326,18 @@ func (fr *Frame) ringCall(st *State, fn *ssa.Function, args []Value) (Value, boo
 	case "Select":
 		c := args[1].(*Term)
 		return set(F.Ite(F.Eq(c, F.I64(0)), ld(2), ld(3)))
+	case "Sqrt":
+		// z.Sqrt(x): nil when x has no square root, otherwise z = sqrt(x) (an uninterpreted choice of root)
+		x := ld(1)
+		has := F.App("ring.hasroot", SBool, x)
+		old := ld(0)
+		fr.store(st, args[0], F.Ite(has, F.App("ring.sqrt", SInt, x), old), nil)
+		v.ringUsed[v.funcKey(fn)] = true
+		return &IteV{C: has, A: args[0], B: &PtrV{}}, true
+	case "LexicographicallyLargest":
+		return ret(F.App("ring.lexlargest", SBool, ld(0)))
+	case "Legendre":
+		return ret(F.App("ring.legendre", SInt, ld(0)))
 	case "MulByNonResidue":
 		return set(F.Mul(v.ringNR(rt), ld(1)))
 	case "MulByElement":
